@@ -428,12 +428,92 @@ def _outside_loop(ctx, cls, loop: SolveLoop, col):
                 cur = par
             if n.kind == "test":
                 guarded = guarded  # the test expression itself writing state is never fine
+            if not guarded and guard_txt is not None:
+                # a hook method (resolved for THIS class) that applies the convergence guard itself: every statement of the callee that
+                # writes the carried state must sit under that guard, with the formals replaced by the actual arguments
+                hooked = _hook_guarded(ctx, cls, loop, n, w, _getter_key(ctx, cls, guard_txt_node(brs, loop)))
+                if hooked is None:
+                    raise AnalysisError(f"{construct}: line {n.lineno} writes loop-carried {sorted(w)} after the loop through `{stmt_text(n)}`, "
+                                        "whose body this rule cannot follow; R8.6 cannot be decided")
+                guarded = hooked
             if not guarded:
                 bad = (n, f"line {n.lineno} writes loop-carried {sorted(w)} after the loop without the convergence guard: {stmt_text(n)}")
                 break
     col.add("R8.6", construct, loop.file, (bad[0].lineno if bad else loop.header.lineno), bad is None,
             f"loop-carried {sorted(L)}: untouched before the loop; after it only under the convergence guard"
             if bad is None else bad[1], text=(stmt_text(bad[0]) if bad else "writes outside loop"))
+
+
+def guard_txt_node(brs, loop):
+    ch = loop.break_guards(brs[0])
+    return ch[0][0].test
+
+
+def _getter_key(ctx, cls, test):
+    """_cmp_key of a test in which calls `self.m()` of trivial getters (`return <expr>`, resolved for this class) are replaced by what they return"""
+    import copy
+
+    class R(ast.NodeTransformer):
+        def visit_Call(self, c):
+            self.generic_visit(c)
+            if isinstance(c.func, ast.Attribute) and isinstance(c.func.value, ast.Name) and c.func.value.id == "self" and not c.args and not c.keywords:
+                r = ctx.ct.lookup(cls, c.func.attr)
+                if r:
+                    body = [st for st in r[1].body if not (isinstance(st, ast.Expr) and isinstance(st.value, ast.Constant))]
+                    if len(body) == 1 and isinstance(body[0], ast.Return) and body[0].value is not None:
+                        return copy.deepcopy(body[0].value)
+            return c
+
+    return _cmp_key(R().visit(copy.deepcopy(test)))
+
+
+def _hook_guarded(ctx, cls, loop, node, w, guard_key):
+    """True / False: the writes of `w` made by the call at `node` all sit under the convergence guard inside the callee; None: not a plain
+    call of a method of this class"""
+    import copy
+    a = node.ast
+    if not (isinstance(a, ast.Expr) and isinstance(a.value, ast.Call)):
+        return False if node.kind != "stmt" else None if isinstance(a, ast.Expr) else False
+    c = a.value
+    from .common import self_call_name
+    nm = self_call_name(c)
+    if nm is None:
+        return None
+    r = ctx.ct.lookup(cls, nm)
+    if not r:
+        return None
+    owner, fn = r
+    formals = [x.arg for x in fn.args.args if x.arg != "self"]
+    m = dict(zip(formals, c.args))
+    for k in c.keywords:
+        if k.arg:
+            m[k.arg] = k.value
+
+    class Sub(ast.NodeTransformer):
+        def visit_Name(self, x):
+            if isinstance(x.ctx, ast.Load) and x.id in m:
+                return copy.deepcopy(m[x.id])
+            return x
+
+    from .common import parents_of
+    parents = parents_of(fn)
+    eff = ctx.effects(cls)
+    for st in ast.walk(fn):
+        if not isinstance(st, ast.stmt) or isinstance(st, (ast.If, ast.FunctionDef, ast.For, ast.While, ast.With, ast.Try)):
+            continue
+        if not (set(eff.of_region([st], owner)[1]) & set(w)):
+            continue
+        cur, ok = st, False
+        while cur is not None and cur is not fn:
+            par = parents.get(id(cur))
+            if isinstance(par, ast.If) and cur in par.body:
+                if _getter_key(ctx, cls, Sub().visit(copy.deepcopy(par.test))) == guard_key:
+                    ok = True
+                    break
+            cur = par
+        if not ok:
+            return False
+    return True
 
 
 def _cmp_key(test) -> str:
